@@ -230,5 +230,11 @@ EXPORT int swprintf_s(wchar_t *restrict dest, rsize_t dmax,
         handle_werror(dest, dmax, errstr, -ret);
     }
 
+#ifdef SAFECLIB_STR_NULL_SLACK
+    /* null the slack behind the terminator, as documented */
+    if (ret >= 0 && (rsize_t)ret < dmax)
+        memset(&dest[ret], 0, (dmax - ret) * sizeof(wchar_t));
+#endif
+
     return ret;
 }
